@@ -455,6 +455,22 @@ def main():
                                                   sequence=[dict(m='calculate_shear'), spec], independence=True, **src3))
         except Exception:
             pass
+        # fixed scenario: the optional diagnostics, each called twice, on a NON-stellarator-symmetric order-r3 object (calculate_shear() takes its quadrature branch
+        # there) and on a symmetric one: bitwise snapshots of every pre-existing attribute around every call
+        try:
+            for cfgf in (dict(rc=[1.0, 0.08], zs=[0.0, 0.07], rs=[0.0, 0.006], zc=[0.0, 0.009], nfp=2, etabar=0.9, sigma0=0.15, order='r3', B2c=0.2, B2s=-0.15, B0=1.2, I2=0.3,
+                              p2=-40000.0, sG=1, spsi=1, nphi=15),
+                         dict(rc=[1.0, 0.09], zs=[0.0, -0.09], nfp=2, etabar=0.95, order='r3', B2c=-0.7, p2=-600000.0, I2=0.3, nphi=15)):
+                srcf = dict(cfg=cfgf)
+                qf = build_src(srcf)
+                seqf = [dict(m='calculate_shear'), dict(m='calculate_shear'), dict(m='calculate_grad_grad_B_tensor', kw=dict(two_ways=True)), dict(m='calculate_shear'),
+                        dict(m='B_mag', args=[0.05, 0.3, 0.4]), dict(m='Bfield_cartesian', kw=dict(r=0.03, theta=0.4)), dict(m='grad_grad_B_tensor_cartesian'),
+                        dict(m='to_RZ', args=[[[0.04, 0.3, 0.2], [0.04, 1.3, 0.9]]]), dict(m='min_R0_penalty'), dict(m='calculate_shear')]
+                seqf = [sp for sp in seqf if sp['m'] in ENTRY and hasattr(qf, sp['m'])]
+                res['violations'] += R.run_sequence(qf, srcf, seqf, set(qf.__dict__))
+                res['configs'] += 1
+        except Exception:
+            pass
         thorough = a.tier == 'thorough'
         n_obj = a.n if a.mode == 'check' else 10 ** 9
         budget = a.budget if a.mode == 'search' else (55 if not thorough else max(a.budget, 600))
